@@ -72,10 +72,10 @@ def check_pmf(ctx, pmf, wit):
     pmf = np.asarray(pmf, dtype=float)
     ctx.ev("pmf_rows_validated", int(pmf.shape[0]))
     ok = pmf.ndim == 2 and pmf.shape[1] == 2
-    if not ctx.check(ok, "pmf_not_two_columns", shape=list(pmf.shape), **wit):
+    if not ctx.check(ok, "pmf_not_two_columns", shape=list(pmf.shape), wit=wit):
         return None
-    ctx.check(bool(((pmf >= -1e-12) & (pmf <= 1 + 1e-12)).all()), "pmf_entry_outside_unit_interval", min=float(pmf.min()), max=float(pmf.max()), **wit)
-    ctx.check(bool(np.allclose(pmf.sum(axis=1), 1.0, atol=1e-12)), "pmf_row_does_not_sum_to_one", sums=pmf.sum(axis=1)[:8].tolist(), **wit)
+    ctx.check(bool(((pmf >= -1e-12) & (pmf <= 1 + 1e-12)).all()), "pmf_entry_outside_unit_interval", min=float(pmf.min()), max=float(pmf.max()), wit=wit)
+    ctx.check(bool(np.allclose(pmf.sum(axis=1), 1.0, atol=1e-12)), "pmf_row_does_not_sum_to_one", sums=pmf.sum(axis=1)[:8].tolist(), wit=wit)
     return pmf[:, 1]
 
 
@@ -89,8 +89,8 @@ def sampling_checks(ctx, predict, p, S, wit, label):
         out = np.asarray(predict(sd))
         if sd == 0:
             first = out.copy()
-            ctx.check(out.shape == (m,), "predict_shape_wrong:" + label, shape=list(out.shape), **wit)
-        if not ctx.check(bool(np.isin(out, [0, 1]).all()), "predict_label_outside_0_1:" + label, values=np.unique(out).tolist()[:6], **wit):
+            ctx.check(out.shape == (m,), "predict_shape_wrong:" + label, shape=list(out.shape), wit=wit)
+        if not ctx.check(bool(np.isin(out, [0, 1]).all()), "predict_label_outside_0_1:" + label, values=np.unique(out).tolist()[:6], wit=wit):
             return
         counts += out
     f = counts / S
@@ -98,23 +98,23 @@ def sampling_checks(ctx, predict, p, S, wit, label):
     ctx.ev("frequency_tests", m + 1)
     worst = int(np.argmax(np.abs(f - p)))
     ctx.check(abs(f[worst] - p[worst]) <= eps, "prediction_frequency_inconsistent_with_pmf:" + label, row=worst, frequency=float(f[worst]),
-              probability=float(p[worst]), hoeffding_bound=eps, seeds=S, **wit)
+              probability=float(p[worst]), hoeffding_bound=eps, seeds=S, wit=wit)
     agg_eps = hoeffding_eps(S * m)
     ctx.check(abs(float(np.mean(f - p))) <= agg_eps, "mean_prediction_frequency_biased_against_pmf:" + label, mean_frequency=float(f.mean()),
-              mean_probability=float(p.mean()), hoeffding_bound=agg_eps, **wit)
+              mean_probability=float(p.mean()), hoeffding_bound=agg_eps, wit=wit)
     det1, det0 = p >= 1.0, p <= 0.0
     ctx.check(bool((f[det1] == 1.0).all()) and bool((f[det0] == 0.0).all()), "row_with_probability_0_or_1_not_deterministic:" + label,
-              p1_freq=f[det1][:5].tolist(), p0_freq=f[det0][:5].tolist(), **wit)
+              p1_freq=f[det1][:5].tolist(), p0_freq=f[det0][:5].tolist(), wit=wit)
     again = np.asarray(predict(0))
     again2 = np.asarray(predict(np.random.RandomState(0)))
     ctx.ev("reproducibility_checks", 2)
-    ctx.check(bool(np.array_equal(first, again)), "same_seed_different_predictions:" + label, **wit)
-    ctx.check(bool(np.array_equal(first, again2)), "int_seed_and_equal_randomstate_differ:" + label, **wit)
+    ctx.check(bool(np.array_equal(first, again)), "same_seed_different_predictions:" + label, wit=wit)
+    ctx.check(bool(np.array_equal(first, again2)), "int_seed_and_equal_randomstate_differ:" + label, wit=wit)
     for v, nm in ((0.0, "zero"), (1.0 - 2.0 ** -53, "almost_one")):
         out = np.asarray(predict(ExtremeRandomState(v)))
         ctx.ev("extreme_draw_checks")
-        ctx.check(bool((out[det1] == 1).all()), "row_with_probability_1_predicts_0_under_extreme_draw:%s:%s" % (nm, label), draw=v, **wit)
-        ctx.check(bool((out[det0] == 0).all()), "row_with_probability_0_predicts_1_under_extreme_draw:%s:%s" % (nm, label), draw=v, **wit)
+        ctx.check(bool((out[det1] == 1).all()), "row_with_probability_1_predicts_0_under_extreme_draw:%s:%s" % (nm, label), draw=v, wit=wit)
+        ctx.check(bool((out[det0] == 0).all()), "row_with_probability_0_predicts_1_under_extreme_draw:%s:%s" % (nm, label), draw=v, wit=wit)
 
 
 def run_case(cls, key, seed, ctx):
@@ -158,20 +158,20 @@ def run_thresholder(ctx, rng, S):
         k = (qs[i], qg[i])
         ctx.ev("thresholder_consistency_checks")
         if k in table:
-            ctx.check(table[k] == pq[i], "thresholder_pmf_differs_for_equal_score_and_group", score=qs[i], group=repr(qg[i]), a=float(table[k]), b=float(pq[i]), **wit)
+            ctx.check(table[k] == pq[i], "thresholder_pmf_differs_for_equal_score_and_group", score=qs[i], group=repr(qg[i]), a=float(table[k]), b=float(pq[i]), wit=wit)
         table[k] = pq[i]
     for i in range(n):
-        ctx.check(abs(table[(s[i], g[i])] - p[i]) <= 1e-15, "thresholder_pmf_depends_on_more_than_score_and_group", row=i, **wit)
+        ctx.check(abs(table[(s[i], g[i])] - p[i]) <= 1e-15, "thresholder_pmf_depends_on_more_than_score_and_group", row=i, wit=wit)
     if not flip:
         for gv in dict.fromkeys(g):
             pts = sorted((sc, pr) for (sc, gg), pr in table.items() if gg == gv)
             ctx.ev("thresholder_consistency_checks")
             ctx.check(all(pts[j + 1][1] >= pts[j][1] - 1e-12 for j in range(len(pts) - 1)), "thresholder_pmf_decreases_with_score_without_flip",
-                      group=repr(gv), points=pts[:12], **wit)
+                      group=repr(gv), points=pts[:12], wit=wit)
     sampling_checks(ctx, lambda rs: to.predict(Xq, sensitive_features=qgc, random_state=rs), pq, S, wit, "ThresholdOptimizer")
     it = to.interpolated_thresholder_
     ctx.check(bool(np.array_equal(np.asarray(it.predict(Xq, sensitive_features=qgc, random_state=3)), np.asarray(to.predict(Xq, sensitive_features=qgc, random_state=3)))),
-              "interpolated_thresholder_predict_differs_from_optimizer_predict", **wit)
+              "interpolated_thresholder_predict_differs_from_optimizer_predict", wit=wit)
 
 
 def run_eg_class(ctx, rng, S):
@@ -199,7 +199,7 @@ def run_eg_class(ctx, rng, S):
     support = [t for t in w.index if w[t] > 0]
     ctx.mark(["eg_class", kind, list(bound), ds.n, len(support), lp, list(w.index) != sorted(w.index)], bool(((p > 0) & (p < 1)).any()), sample=wit)
     ctx.ev("weights_checked")
-    ctx.check(bool((np.asarray(w, float) >= -1e-12).all()) and abs(float(w.sum()) - 1.0) <= 1e-9, "weights_not_a_probability_vector", **wit)
+    ctx.check(bool((np.asarray(w, float) >= -1e-12).all()) and abs(float(w.sum()) - 1.0) <= 1e-9, "weights_not_a_probability_vector", wit=wit)
     if list(w.index) != sorted(w.index):
         ctx.ev("support_out_of_iteration_order")
     mix = np.zeros(len(p))
@@ -208,7 +208,7 @@ def run_eg_class(ctx, rng, S):
             mix += float(w[t]) * np.asarray(eg.predictors_[t].predict(Xq), float)
     ctx.ev("mixture_rows_compared", len(p))
     ctx.check(bool(np.allclose(p, mix, atol=1e-12)), "positive_probability_is_not_the_weighted_mixture_of_stored_predictors",
-              got=p[:10].tolist(), expected=mix[:10].tolist(), **wit)
+              got=p[:10].tolist(), expected=mix[:10].tolist(), wit=wit)
     sampling_checks(ctx, lambda rs: eg.predict(Xq, random_state=rs), p, S, wit, "ExponentiatedGradient")
 
 
@@ -245,11 +245,11 @@ def run_eg_regr(ctx, rng, S):
     distinct_rows = sum(1 for i in range(ds.n) if len({vals[t][i] for t in support}) > 1)
     ctx.mark(["eg_regr", lname, ds.n, len(support), out_of_order], distinct_rows > 0, sample=wit)
     ctx.ev("weights_checked")
-    ctx.check(bool((np.asarray(w, float) >= -1e-12).all()) and abs(float(w.sum()) - 1.0) <= 1e-9, "weights_not_a_probability_vector", **wit)
+    ctx.check(bool((np.asarray(w, float) >= -1e-12).all()) and abs(float(w.sum()) - 1.0) <= 1e-9, "weights_not_a_probability_vector", wit=wit)
     # stored per-predictor outputs (columns are predictor ids)
     for t in support:
         ctx.ev("mixture_rows_compared", ds.n)
-        ctx.check(t in pred.columns and bool(np.allclose(np.asarray(pred[t], float), vals[t])), "pmf_predict_column_is_not_that_predictors_output", predictor=int(t), **wit)
+        ctx.check(t in pred.columns and bool(np.allclose(np.asarray(pred[t], float), vals[t])), "pmf_predict_column_is_not_that_predictors_output", predictor=int(t), wit=wit)
     counts = [dict() for _ in range(ds.n)]
     first = None
     for sd in range(S):
@@ -267,13 +267,13 @@ def run_eg_regr(ctx, rng, S):
         for v, c in counts[i].items():
             ctx.ev("frequency_tests")
             if v not in expp:
-                ctx.violate("regression_predict_returns_value_of_no_positive_weight_predictor", row=i, value=float(v), allowed=sorted(expp), frequency=c / S, **wit)
+                ctx.violate("regression_predict_returns_value_of_no_positive_weight_predictor", row=i, value=float(v), allowed=sorted(expp), frequency=c / S, wit=wit)
                 return
         for v, pv in expp.items():
             d = abs(counts[i].get(v, 0) / S - pv)
             if worst is None or d > worst[0]:
                 worst = (d, i, v, counts[i].get(v, 0) / S, pv)
     ctx.check(worst[0] <= eps, "regression_predictor_choice_frequency_inconsistent_with_weights", row=worst[1], value=worst[2], frequency=worst[3],
-              probability=worst[4], hoeffding_bound=eps, seeds=S, **wit)
+              probability=worst[4], hoeffding_bound=eps, seeds=S, wit=wit)
     ctx.ev("reproducibility_checks")
-    ctx.check(bool(np.array_equal(first, np.asarray(eg.predict(Xq, random_state=0), float))), "same_seed_different_predictions:regression", **wit)
+    ctx.check(bool(np.array_equal(first, np.asarray(eg.predict(Xq, random_state=0), float))), "same_seed_different_predictions:regression", wit=wit)
